@@ -23,7 +23,7 @@ REPORT = ['modules', 'messages', 'evaluations', 'decode_with_length_checks', 'de
           'cut_inside_identifier', 'cut_inside_length_octets', 'header_complete', 'multi_octet_identifier', 'long_form_length']
 FLOORS = {'quick': {'evaluations': 50000, 'cut_inside_identifier': 200, 'cut_inside_length_octets': 500},
           'thorough': {'evaluations': 200000, 'cut_inside_identifier': 800, 'cut_inside_length_octets': 2000}}
-TIMEOUT = {'quick': 1500, 'thorough': 14000}
+TIMEOUT = {'quick': 1500, 'thorough': 5400}
 
 
 def shards(tier):
